@@ -60,8 +60,8 @@ pub fn lib_text(rng: &mut Rng) -> String {
     s
 }
 
-const LAYOUT_SAFE: Layout = Layout { directives: false, defines: false, non_ascii: true, form_feed: false, comments: true };
-const LAYOUT_DIRS: Layout = Layout { directives: true, defines: true, non_ascii: true, form_feed: false, comments: true };
+const LAYOUT_SAFE: Layout = Layout { directives: false, defines: false, non_ascii: true, form_feed: true, comments: true };
+const LAYOUT_DIRS: Layout = Layout { directives: true, defines: true, non_ascii: true, form_feed: true, comments: true };
 
 /// A source text for the tree-side properties (mostly accepted ones).
 pub fn tree_input(env: &Env, rng: &mut Rng) -> SvInput {
